@@ -159,7 +159,7 @@ func c06Truthiness(c *Ctx, T *ssa.Function) {
 			}
 			switch cal.String() {
 			case "(*github.com/ericlagergren/decimal.Big).Cmp":
-				if c.derivedFrom(call.Call.Args[0], v) {
+				if c.sameNumberAs(call.Call.Args[0], v, 0) {
 					for _, rt := range decOrigins(c).Roots(call.Call.Args[1]) {
 						if rt.Kind == "call" && rt.Fn != nil && (rt.Fn.Name() == c.P.alias("newDecimalBig") || strings.HasSuffix(rt.Fn.String(), "decimal.New") || strings.HasSuffix(rt.Fn.String(), "decimal.WithContext")) {
 							zeroOK = c.zeroConstruction(call.Call.Args[1])
@@ -167,12 +167,12 @@ func c06Truthiness(c *Ctx, T *ssa.Function) {
 					}
 				}
 			case "(*github.com/ericlagergren/decimal.Big).Sign":
-				if c.derivedFrom(call.Call.Args[0], v) {
+				if c.sameNumberAs(call.Call.Args[0], v, 0) {
 					zeroOK = true
 					nanOK = true // Sign is 0 for NaN as well: the table above has decided what is done with it
 				}
 			case "(*github.com/ericlagergren/decimal.Big).IsNaN":
-				if c.derivedFrom(call.Call.Args[0], v) {
+				if c.sameNumberAs(call.Call.Args[0], v, 0) {
 					nanOK = true
 				}
 			}
@@ -353,6 +353,17 @@ func c06Single(c *Ctx, T *ssa.Function, barms, parms map[int64]OpArm, condH *ssa
 		// no other boolean decision helper of the module may stand in for it
 		other := ""
 		instrs(u.h, func(b *ssa.BasicBlock, i int, in ssa.Instruction) {
+			// a test made on the way to an error (what to call the operand in the message) decides nothing
+			for d := b; d != nil; d = d.Idom() {
+				if len(d.Preds) == 1 {
+					p := d.Preds[0]
+					for k, sc := range p.Succs {
+						if sc == d && len(p.Succs) == 2 && c.rejects(p, k, nil, nil) {
+							return
+						}
+					}
+				}
+			}
 			if call, ok := in.(*ssa.Call); ok {
 				if cal := calleeOf(call); cal != nil && cal != T && cal != K && c.inModule(cal) && cal.Signature.Results().Len() == 1 && isBoolType(cal.Signature.Results().At(0).Type()) {
 					other = c.P.FuncKey(cal)
@@ -792,3 +803,65 @@ func c06Dispatch(c *Ctx, barms, parms map[int64]OpArm) {
 
 // unused but kept for symmetry with token comparisons
 var _ = token.EQL
+
+// sameNumberAs: x is the operand p itself - through type assertions, or through module helpers that hand a number
+// argument back unchanged on every path (a conversion helper applied to what is already a number). A helper that can
+// return another number (`finite`: 0 for the infinities) makes a test on its result a test of something else.
+func (c *Ctx) sameNumberAs(x ssa.Value, p *ssa.Parameter, depth int) bool {
+	if depth > 3 {
+		return false
+	}
+	rs := plainOrigins.Roots(x)
+	if len(rs) == 0 {
+		return false
+	}
+	for _, r := range rs {
+		switch r.Kind {
+		case "param":
+			if r.V != ssa.Value(p) {
+				return false
+			}
+		case "call":
+			call := r.V.(*ssa.Call)
+			g := calleeOf(call)
+			if g == nil || !c.inModule(g) || len(g.Blocks) == 0 {
+				return false
+			}
+			pi := -1
+			for i, a := range call.Call.Args {
+				if c.sameNumberAs(a, p, depth+1) {
+					pi = i
+				}
+			}
+			if pi < 0 || pi >= len(g.Params) {
+				return false
+			}
+			gp := g.Params[pi]
+			fr := c.foldWith(g, 1, pinTypeCase(gp, "*decimal.Big"))
+			if len(fr.Returns) == 0 {
+				return false
+			}
+			for _, ret := range fr.Returns {
+				if r.Idx >= len(ret.Results) {
+					return false
+				}
+				same := true
+				rr := plainOrigins.Roots(ret.Results[r.Idx])
+				if len(rr) == 0 {
+					same = false
+				}
+				for _, q := range rr {
+					if q.Kind != "param" || q.V != ssa.Value(gp) || len(q.Path) != 0 {
+						same = false
+					}
+				}
+				if !same {
+					return false
+				}
+			}
+		default:
+			return false
+		}
+	}
+	return true
+}
